@@ -39,7 +39,8 @@ ASSUMPTIONS = [
     "an already processed Individual object that is submitted again gets a second sensitivity entry because the length test is "
     "`len(costs) > self.n` (see notes/C14.md) - outside the property's quantifier",
     "the objective is a function of the vector, returns a fresh list of exactly len(problem.costs) numbers and does not raise",
-    "all designs have len(problem.parameters) coordinates and every parameter has a 'tol' entry (worst case)",
+    "all designs have len(problem.parameters) coordinates and every parameter has a 'tol' entry (worst case); tolerances are floats "
+    "(or non-zero ints: an int tolerance 0 gives -1 * 0 = 0 instead of -0.0, which is visible only on a coordinate that is -0.0)",
     "gradient evaluator: batches are non-empty (an empty batch raises IndexError in run(); modelled, not covered by the theorems)",
     "the sum in the extra objective and the finite difference use the FIRST user objective only (costs[0]), as the code does",
 ]
@@ -131,7 +132,16 @@ def gen_case(rng, forced=None):
     fams = FAMILIES if rng.random() < 0.85 else ["huge", "const", "hash"]
     objs = forced.get("objs", [{"kind": rng.choice(fams), "a": [rng.choice(COEF) for _ in range(n)], "b": rng.choice(COEF)}
                                for _ in range(m)])
-    return {"mode": "direct", "wc": wc, "n": n, "m": m, "tols": tols, "objs": objs,
+    again = [[] for _ in batches]
+    if forced.get("again") is not None:
+        again = forced["again"]
+    elif "batches" not in forced and rng.random() < 0.12:
+        created = 0
+        for bi, b in enumerate(batches):
+            if created and rng.random() < 0.7:
+                again[bi] = sorted(rng.sample(range(created), rng.choice([1, 1, 2]) if created > 1 else 1))
+            created += len(b)
+    return {"mode": "direct", "wc": wc, "n": n, "m": m, "tols": tols, "objs": objs, "again": again,
             "criteria": forced.get("criteria", [rng.choice(["minimize", "maximize"]) for _ in range(m)]),
             "ret_numpy": forced.get("ret_numpy", rng.random() < 0.2), "int_tol": rng.random() < 0.05,
             "batches": batches}
@@ -145,7 +155,8 @@ def gen_algo_case(rng):
             "objs": [{"kind": rng.choice(["quad", "lin", "abs", "sin", "prod"]), "a": [rng.choice(COEF[:8]) for _ in range(n)],
                       "b": rng.choice(COEF[:8])} for _ in range(m)],
             "criteria": [rng.choice(["minimize", "maximize"]) for _ in range(m)], "ret_numpy": False, "int_tol": False,
-            "pop": rng.choice([2, 3, 4, 6]), "gens": rng.choice([2, 3, 4, 5]), "seed": rng.randrange(10 ** 6), "batches": None}
+            "pop": rng.choice([2, 3, 4, 6]), "gens": rng.choice([2, 3, 4, 5]), "seed": rng.randrange(10 ** 6), "batches": None,
+            "again": None}
 
 
 def close(a, b):
@@ -182,7 +193,7 @@ def run(ctx):
             case = kwargs["case"]
             self.name = "c14"
             self.parameters = [{'name': 'x%d' % i, 'initial_value': 0.5, 'bounds': [-2.0, 3.0],
-                                'tol': (int(t) if case["int_tol"] and float(t) == int(t) else t)}
+                                'tol': (int(t) if case["int_tol"] and float(t) == int(t) and t != 0 else t)}
                                for i, t in enumerate(case["tols"])]
             self.costs = [{'name': 'F%d' % k, 'criteria': c} for k, c in enumerate(case["criteria"])]
             self.fns = [make_objective(s) for s in case["objs"]]
@@ -203,12 +214,15 @@ def run(ctx):
 
     def fail(what, case, kind, **kw):
         if len(ctx.oracle_failures) < 40:
-            inp = {k: case[k] for k in ("mode", "wc", "n", "m", "tols", "objs", "criteria", "batches")}
+            inp = {k: case.get(k) for k in ("mode", "wc", "n", "m", "tols", "objs", "criteria", "batches")}
             inp.update(kw)
             ctx.oracle_failures.append({"what": what, "input": inp, "match": {"kind": kind}})
 
     def num(x):
-        return float(x)
+        try:
+            return float(x)
+        except (TypeError, ValueError):
+            return float("nan")         # None / malformed entry: cannot be produced by the model at this position
 
     def oracle_wc(case, problem, submitted, upto, n, m):
         """clauses of the property on every design submitted so far (batches 0..upto)"""
@@ -237,14 +251,20 @@ def run(ctx):
                     fail("%d neighbour designs (required 2n = %d)" % (len(x.children), 2 * n), case, "worstcase_children_count", **where)
                     continue
                 ok = True
+                # 2n neighbours: on every axis one displaced by -tolerance and one by +tolerance (as a multiset: the
+                # property does not fix their order)
+                want = []
+                for i in range(n):
+                    for disp in (v0[i] - tols[i], v0[i] + tols[i]):
+                        w = list(v0)
+                        w[i] = disp
+                        want.append(tuple(0.0 + t for t in w))
+                got = [tuple(0.0 + float(t) for t in ch.vector) for ch in x.children]
+                if sorted(got) != sorted(want):
+                    fail("neighbours %r, required one design displaced by -tolerance and one by +tolerance on every axis: %r"
+                         % ([list(g) for g in got], [list(w) for w in want]), case, "worstcase_displacement", **where)
+                    ok = False
                 for k, ch in enumerate(x.children):
-                    i, sign = k // 2, (-1.0 if k % 2 == 0 else 1.0)
-                    want = list(v0)
-                    want[i] = v0[i] - tols[i] if sign < 0 else v0[i] + tols[i]
-                    if len(ch.vector) != n or any(not (ch.vector[j] == want[j]) for j in range(n)):
-                        fail("neighbour %d is %r, required %r (axis %d displaced by %+g * tolerance)" % (k, list(ch.vector), want, i, sign),
-                             case, "worstcase_displacement", **where)
-                        ok = False
                     if len(ch.parents) != 1 or ch.parents[0] is not x:
                         fail("neighbour %d is not linked to its design through parents" % k, case, "worstcase_parent_link", **where)
                         ok = False
@@ -339,17 +359,40 @@ def run(ctx):
             orig_run()
         ev.run = run_rec
         oracle = oracle_wc if case["wc"] else oracle_grad
+        # cells in the order the model creates them: the designs of a batch when the algorithm creates them, the
+        # children when add() creates them (numbered right after each evaluate call: a design that is submitted again
+        # drops its earlier children, which stay in the heap)
+        number, order, idss = {}, [], []
+
+        def number_new(objs):
+            for x in objs:
+                if id(x) not in number:
+                    number[id(x)] = len(order)
+                    order.append(x)
+
+        def after_batch(inds):
+            idss.append([number[id(x)] for x in inds])
+            for x in inds:
+                number_new(x.children)
         if case["mode"] == "direct":
+            created = []
+            resubmits = any(case["again"])
             for bi, batch in enumerate(case["batches"]):
-                inds = [Individual(list(v)) for v in batch]
+                new = [Individual(list(v)) for v in batch]
+                number_new(new)
+                inds = new + [created[k] for k in case["again"][bi]]
+                created.extend(new)
                 submitted.append([(x, list(x.vector)) for x in inds])
                 try:
                     alg.evaluate(inds)
                 except IndexError as e:
                     raised = "IndexError"
                     break
-                oracle(case, problem, submitted, bi, n, m)
+                after_batch(inds)
+                if not resubmits:
+                    oracle(case, problem, submitted, bi, n, m)
         else:
+            resubmits = False
             orig_eval = ev.evaluate
             resub = []
 
@@ -357,8 +400,10 @@ def run(ctx):
                 for x in inds:
                     if x.state != Individual.State.EMPTY:
                         resub.append(x)
+                number_new(inds)
                 submitted.append([(x, list(x.vector)) for x in inds])
                 orig_eval(inds)
+                after_batch(inds)
                 oracle(case, problem, submitted, len(submitted) - 1, n, m)
             ev.evaluate = eval_rec
             pyrandom.seed(case["seed"])
@@ -367,25 +412,12 @@ def run(ctx):
             if resub:
                 raise AssertionError("the algorithm submitted an already evaluated Individual: outside the model")
             case["batches"] = [[v for (_, v) in b] for b in submitted]
-        if raised is None:
+            case["again"] = [[] for _ in submitted]
+        if raised is None and not resubmits:
             oracle_proc(case, proc, submitted)
             if len(ev.individuals) != 0 or len(ev.to_evaluate) != 0:
                 fail("work lists not empty between batches: %d individuals, %d to_evaluate" % (len(ev.individuals), len(ev.to_evaluate)),
                      case, "worstcase_reprocess" if case["wc"] else "gradient_reprocess")
-        # ---- observation: cells in the order the model creates them
-        number = {}
-        order = []
-        idss = []
-        for batch in submitted:
-            for (x, _) in batch:
-                number[id(x)] = len(order)
-                order.append(x)
-            idss.append([number[id(x)] for (x, _) in batch])
-            for (x, _) in batch:
-                for ch in x.children:
-                    if id(ch) not in number:
-                        number[id(ch)] = len(order)
-                        order.append(ch)
         UNKNOWN = 999999
 
         def cell(x):
@@ -423,10 +455,10 @@ def run(ctx):
                   ll(c["children"], nl), optl(c["sens"], fl), optl(c["grad"], enc_vec))
 
     def encode(case, obs, table):
-        c = "{| c_wc := %s; c_comp := %s; c_m := %s; c_tols := %s; c_table := %s; c_batches := %s |}" % (
+        c = "{| c_wc := %s; c_comp := %s; c_m := %s; c_tols := %s; c_table := %s; c_batches := %s; c_again := %s |}" % (
             bl(case["wc"]), bl(not case["ret_numpy"] and case["objs"][0]["kind"] != "intstep"), nl(case["m"]), enc_vec(case["tols"]),
             ll(table, lambda t: pl(enc_vec(t[0]), enc_vec(t[1]), enc_vec(t[2]), bl(t[3]))),
-            ll(case["batches"], lambda b: ll(b, enc_vec)))
+            ll(case["batches"], lambda b: ll(b, enc_vec)), ll(case["again"], lambda l: ll(l, nl)))
         if obs is None:
             return c, "None"
         e = "(Some %s)" % pl(ll(obs["cells"], enc_cell), ll(obs["log"], enc_vec), ll(obs["proc"], lambda l: ll(l, nl)),
@@ -436,7 +468,8 @@ def run(ctx):
     cases, expected, meta = [], [], []
     hist = {"worst_case": 0, "gradient": 0, "batches": {}, "designs_per_case": {}, "n": {}, "m": {}, "objective_kinds": {},
             "algorithm_runs": {}, "objective_calls": 0, "cells": 0, "raised_index_error": 0, "zero_sensitivity": 0,
-            "nonfinite_values": 0, "duplicate_vectors_in_case": 0}
+            "nonfinite_values": 0, "duplicate_vectors_in_case": 0,
+            "resubmission_cases": 0}
 
     def bump(d, k):
         d[str(k)] = d.get(str(k), 0) + 1
@@ -446,7 +479,7 @@ def run(ctx):
         c, e = encode(case, obs, table)
         cases.append(c)
         expected.append(e)
-        mt = {k: case[k] for k in ("mode", "wc", "n", "m", "tols", "objs", "criteria", "batches")}
+        mt = {k: case[k] for k in ("mode", "wc", "n", "m", "tols", "objs", "criteria", "batches", "again")}
         for k in ("pop", "gens", "seed"):
             if k in case:
                 mt[k] = case[k]
@@ -462,6 +495,7 @@ def run(ctx):
         bump(hist["m"], case["m"])
         for o in case["objs"]:
             bump(hist["objective_kinds"], o["kind"])
+        hist["resubmission_cases"] += any(case["again"])
         if case["mode"] != "direct":
             bump(hist["algorithm_runs"], case["mode"] + ("/worst_case" if case["wc"] else "/gradient"))
         if obs is None:
@@ -475,9 +509,9 @@ def run(ctx):
             hist["duplicate_vectors_in_case"] += len(vs) != len(set(vs))
         key = (case["mode"], case["wc"], case["n"], case["m"], tuple(case["tols"]),
                tuple((o["kind"], tuple(o["a"]), o["b"]) for o in case["objs"]),
-               tuple(tuple(tuple(v) for v in b) for b in case["batches"]))
+               tuple(tuple(tuple(v) for v in b) for b in case["batches"]), tuple(tuple(a) for a in case["again"]))
         ctx.count(key, nontrivial=(len(case["batches"]) >= 2 and obs is not None))
-        if len(case["batches"]) == 2 and nd <= 3 and case["mode"] == "direct" and obs is not None:
+        if len(case["batches"]) == 2 and nd <= 3 and case["mode"] == "direct" and obs is not None and not any(case["again"]):
             ctx.sample(mt, limit=3)
 
     rng = ctx.rng
@@ -499,6 +533,11 @@ def run(ctx):
          "batches": [[[0.25, 0.25, 0.25], [0.1, 0.2, 0.30000000000000004]]]},
         {"wc": False, "n": 2, "m": 1, "tols": [0.1, 0.1], "objs": q1, "batches": [[[0.5, 0.5]], []]},                         # IndexError in run()
         {"wc": False, "n": 1, "m": 2, "tols": [0.1], "objs": q2, "batches": [[[1e300]], [[-1e300]]]},
+        # an evaluated design handed to evaluate() again (outside the theorems): second time appended, third time overwritten
+        {"wc": True, "n": 1, "m": 1, "tols": [0.25], "objs": q1, "batches": [[[0.5]], [], [], []], "again": [[], [0], [0], [0]]},
+        {"wc": True, "n": 2, "m": 2, "tols": [0.25, 0.5], "objs": q2, "batches": [[[0.1, 0.2], [0.3, 0.4]], [[0.5, 0.6]], [[0.0, 0.0]]],
+         "again": [[], [1], [0, 1, 2]]},
+        {"wc": False, "n": 2, "m": 1, "tols": [0.1, 0.1], "objs": q1, "batches": [[[0.5, 0.5]], [[0.1, 0.2]], []], "again": [[], [0], [0, 1]]},
     ]
     for f in corpus:
         add(gen_case(rng, dict(f, criteria=["minimize", "maximize"][:f["m"]], ret_numpy=False)))
